@@ -99,49 +99,51 @@ HistSent ==
   /\ UNCHANGED <<s, pend, A, opts, rc, rr, B, D, closed, polls, pcall, bad, known, nq>>
 
 -----------------------------------------------------------------------------
-(* the verdict, over the accumulated history *)
+(* the verdict, over the accumulated history (sets are bound once with LET: traces of stress runs are long) *)
 StrictlyInc(q) == \A a, b \in 1..Len(q) : a < b => q[a] < q[b]
-
-DataIdx == {j \in 1..Len(D) : ~Synthetic(D[j].topic)}
-DataSeq == SelectSeq(D, LAMBDA d : ~Synthetic(d.topic))
-DataIds == [j \in 1..Len(DataSeq) |-> DataSeq[j].id]
-DSet == ToSet(DataIds)
-MaxD == IF DSet = {} THEN 0 ELSE Max(DSet)
-ById(i) == CHOOSE a \in A : a.id = i
-InScopeA(a) == (opts.ctx = -1 \/ a.ctx = opts.ctx) /\ a.id > opts.last
-ThreshIdx == {j \in 1..Len(D) : D[j].topic = "xs.threshold"}
-NThresh == Cardinality(ThreshIdx)
-NPulse == Cardinality({j \in 1..Len(D) : D[j].topic = "xs.pulse"})
-AfterRead == {a \in A : a.ret > rc}
-LagPossible == Cardinality(AfterRead) > B
-
-\* what the reader must have been given by now if its stream is still open
-Must == {a \in A : /\ InScopeA(a)
-                   /\ IF opts.follow
-                      THEN (a.kind = "f" /\ ~opts.tail) \/ a.call > rr
-                      ELSE a.kind = "f" /\ a.ret < rc /\ ~opts.tail}
-Missing == {a \in Must : a.id \notin DSet}
-Gap == {a \in Missing : a.id < MaxD}
-\* DESIGN 6 #2: an ephemeral frame broadcast while the scan was running is dropped when a stored
-\* frame with a larger id was delivered by the scan
-KnownLoss(a) == a.kind = "e" /\ opts.follow /\ ~opts.tail /\ \E h \in histSent : h > a.id
-LimitHit == opts.limit > 0 /\ Len(DataSeq) >= opts.limit
+IncSeq(q) == \A a \in 1..(Len(q) - 1) : q[a] < q[a + 1]
 
 ReaderVerdict(q) ==
   IF rc = 0 THEN {} ELSE
-  (IF ~StrictlyInc(DataIds) THEN {"C03", "C02"} ELSE {})
-  \cup (IF \E j \in DataIdx : D[j].id \notin {a.id : a \in A} THEN {"C03"} ELSE {})
-  \cup (IF \E j \in DataIdx : opts.ctx # -1 /\ D[j].ctx # opts.ctx THEN {"C06"} ELSE {})
-  \cup (IF \E j \in DataIdx : D[j].id <= opts.last THEN {"C03", "C01"} ELSE {})
-  \cup (IF \E j \in DataIdx : D[j].kind = "e" /\ \E a \in A : a.id = D[j].id /\ a.ret < rc THEN {"C09"} ELSE {})
-  \cup (IF \E j \in DataIdx : D[j].kind = "e" /\ ~opts.follow THEN {"C09"} ELSE {})
-  \cup (IF opts.tail /\ \E j \in DataIdx : \E a \in A : a.id = D[j].id /\ a.ret < rc THEN {"C11"} ELSE {})
+  LET DataSeq == SelectSeq(D, LAMBDA d : ~Synthetic(d.topic))
+      DataIds == [j \in 1..Len(DataSeq) |-> DataSeq[j].id]
+      DSet == ToSet(DataIds)
+      MaxD == IF DSet = {} THEN 0 ELSE Max(DSet)
+      AIds == {a.id : a \in A}
+      Before == {a.id : a \in {a \in A : a.ret < rc}}          \* appended completely before the read was called
+      EphIds == {a.id : a \in {a \in A : a.kind = "e"}}
+      ThreshIdx == {j \in 1..Len(D) : D[j].topic = "xs.threshold"}
+      NThresh == Cardinality(ThreshIdx)
+      NPulse == Cardinality({j \in 1..Len(D) : D[j].topic = "xs.pulse"})
+      LagPossible == Cardinality({a \in A : a.ret > rc}) > B
+      InScopeA(a) == (opts.ctx = -1 \/ a.ctx = opts.ctx) /\ a.id > opts.last
+      \* what the reader must have been given by now if its stream is still open
+      Must == {a \in A : /\ InScopeA(a)
+                         /\ IF opts.follow
+                            THEN (a.kind = "f" /\ ~opts.tail) \/ a.call > rr
+                            ELSE a.kind = "f" /\ a.ret < rc /\ ~opts.tail}
+      Missing == {a \in Must : a.id \notin DSet}
+      Gap == {a \in Missing : a.id < MaxD}
+      MaxHist == IF histSent = {} THEN 0 ELSE Max(histSent)
+      \* DESIGN 0.5 #2: an ephemeral frame broadcast while the scan was running is dropped when a stored
+      \* frame with a larger id was delivered by the scan
+      KnownLoss(a) == a.kind = "e" /\ opts.follow /\ ~opts.tail /\ MaxHist > a.id
+      LimitHit == opts.limit > 0 /\ Len(DataSeq) >= opts.limit
+      BeforeThresh(p) == {D[j].id : j \in 1..(p - 1)}
+  IN
+  (IF ~IncSeq(DataIds) THEN {"C03", "C02"} ELSE {})
+  \cup (IF ~(DSet \subseteq AIds) THEN {"C03"} ELSE {})
+  \cup (IF opts.ctx # -1 /\ \E j \in 1..Len(DataSeq) : DataSeq[j].ctx # opts.ctx THEN {"C06"} ELSE {})
+  \cup (IF \E i \in DSet : i <= opts.last THEN {"C03", "C01"} ELSE {})
+  \cup (IF DSet \cap EphIds \cap Before # {} THEN {"C09"} ELSE {})
+  \cup (IF ~opts.follow /\ DSet \cap EphIds # {} THEN {"C09"} ELSE {})
+  \cup (IF opts.tail /\ DSet \cap Before # {} THEN {"C11"} ELSE {})
   \* threshold: exactly one when following from history without a limit, never otherwise
   \cup (IF NThresh > 1 THEN {"C03"} ELSE {})
   \cup (IF NThresh = 1 /\ ~(opts.follow /\ opts.limit = 0 /\ ~opts.tail) THEN {"C03", "C11"} ELSE {})
   \cup (IF NThresh = 0 /\ opts.follow /\ opts.limit = 0 /\ ~opts.tail /\ ~closed /\ q.writers_done THEN {"C03"} ELSE {})
   \cup (IF \E p \in ThreshIdx :
-             \/ \E a \in A : a.kind = "f" /\ InScopeA(a) /\ a.ret < rc /\ ~\E j \in 1..(p - 1) : D[j].id = a.id
+             \/ \E a \in A : a.kind = "f" /\ InScopeA(a) /\ a.ret < rc /\ a.id \notin BeforeThresh(p)
              \/ \E j \in 1..(p - 1) : D[j].kind = "e" /\ ~Synthetic(D[j].topic)
         THEN {"C03"} ELSE {})
   \cup (IF NPulse > 0 /\ ~opts.heartbeat THEN {"C11"} ELSE {})
@@ -157,26 +159,33 @@ ReaderVerdict(q) ==
   \* content is there when the frame is delivered
   \cup (IF \E j \in 1..Len(D) : ~D[j].cas THEN {"C10"} ELSE {})
 
-ReaderKnown == IF rc # 0 /\ \E a \in Missing : KnownLoss(a) THEN {"C03-ephemeral-dropped"} ELSE {}
+ReaderKnown ==
+  IF rc = 0 THEN {} ELSE
+  LET DSet == {D[j].id : j \in {j \in 1..Len(D) : ~Synthetic(D[j].topic)}}
+      MaxHist == IF histSent = {} THEN 0 ELSE Max(histSent)
+  IN IF opts.follow /\ ~opts.tail /\
+        \E a \in A : a.kind = "e" /\ a.call > rr /\ a.id \notin DSet /\ MaxHist > a.id
+           /\ (opts.ctx = -1 \/ a.ctx = opts.ctx) /\ a.id > opts.last
+     THEN {"C03-ephemeral-dropped"} ELSE {}
 
 PollVerdict(q) ==
   LET StoredA == {a \in A : a.kind = "f"}
+      EphIds == {a.id : a \in {a \in A : a.kind = "e"}}
       seen == UNION {ToSet(polls[k].ids) : k \in 1..Len(polls)}
       plast == IF seen = {} THEN 0 ELSE Max(seen)
       final == {q.stored[j].id : j \in 1..Len(q.stored)}
-  IN  (IF \E k \in 1..Len(polls) : ~StrictlyInc(polls[k].ids) THEN {"C02", "C01"} ELSE {})
-      \cup (IF \E k \in 1..Len(polls) : \E i \in ToSet(polls[k].ids) : i <= polls[k].last THEN {"C02", "C01"} ELSE {})
-      \cup (IF \E k \in 1..Len(polls) : \E a \in StoredA :
-                 a.ret < polls[k].call /\ a.id > polls[k].last /\ a.id \notin ToSet(polls[k].ids)
-            THEN {"C02", "C01"} ELSE {})
-      \cup (IF \E k \in 1..Len(polls) : \E i \in ToSet(polls[k].ids) : \E a \in A : a.id = i /\ a.kind = "e"
-            THEN {"C09"} ELSE {})
+      PollMiss(k) == LET ps == ToSet(polls[k].ids) IN
+                     \E a \in StoredA : a.ret < polls[k].call /\ a.id > polls[k].last /\ a.id \notin ps
+  IN  (IF \E k \in 1..Len(polls) : ~IncSeq(polls[k].ids) THEN {"C02", "C01"} ELSE {})
+      \cup (IF \E k \in 1..Len(polls) : Len(polls[k].ids) > 0 /\ polls[k].ids[1] <= polls[k].last THEN {"C02", "C01"} ELSE {})
+      \cup (IF \E k \in 1..Len(polls) : PollMiss(k) THEN {"C02", "C01"} ELSE {})
+      \cup (IF seen \cap EphIds # {} THEN {"C09"} ELSE {})
       \cup (IF \E k \in 1..Len(polls) : \E t \in polls[k].topics : Synthetic(t) THEN {"C11"} ELSE {})
       \cup (IF \E j \in 1..Len(q.stored) : Synthetic(q.stored[j].topic) THEN {"C11"} ELSE {})
       \* the stream only grows at its end: nothing at or below the poller's position that it has not seen
       \cup (IF \E i \in final : i <= plast /\ i \notin seen THEN {"C02"} ELSE {})
       \cup (IF q.writers_done /\ \E a \in StoredA : a.id \notin final THEN {"C02", "C01"} ELSE {})
-      \cup (IF \E a \in A : a.kind = "e" /\ a.id \in final THEN {"C09"} ELSE {})
+      \cup (IF final \cap EphIds # {} THEN {"C09"} ELSE {})
 
 Report(v) == IF v = {} THEN TRUE
              ELSE PrintT("VIOL " \o ToJson([props |-> v, b |-> s, l |-> l, e |-> E.e]))
